@@ -371,6 +371,59 @@ def parser_grid_search(log):
     return {'witness': None, 'grid_points': len(cases)}
 
 
+def compr_grid_search(log):
+    """comprehensions with several `if` guards per `for` clause: guards run left to right (a later guard may rely on an
+    earlier one), on the first and on nested `for` clauses, list and dict forms."""
+    exprs = [
+        '[(x, y) for x in [0, 1] for y in [0, 1, 2] if y != 0 if 6 // y > 1]',
+        '[x for x in [0, 1, 2, 3] if x != 0 if 6 // x > 1 if x != 3]',
+        '[(x, y, z) for x in [1, 2] for y in [0, 2] if y if x // y for z in [0, 1, 5] if z if 5 // z == 1]',
+        '{x: y for x in [0, 1] for y in [0, 1, 2] if y != 0 if 6 // y > 1}',
+        '[y for x in [[0, 1], [2, 0]] for y in x if y if 4 // y]',
+        '[x for x in [0, 1] if True if x]',
+    ]
+    wants = []
+    for e in exprs:
+        try:
+            wants.append('OK ' + repr(eval(e)))
+        except Exception:
+            wants.append('ERR')
+    outs = eval_many(exprs, log)
+    for e, o, w in zip(exprs, outs, wants):
+        good = o.startswith('ERR') if w == 'ERR' else o == w
+        if not good:
+            return {'witness': {'expression': e, 'real_library': o, 'oracle_python': w}, 'grid_points': len(exprs)}
+    return {'witness': None, 'grid_points': len(exprs)}
+
+
+def span_grid_search(log):
+    """sources exercising every node builder of unit `spans`: each node's span must lie inside its parent's span."""
+    build(log)
+    srcs = [
+        'def f(a, b: int, c = 1, d: str = "x", *args: int, e, **kwargs: int): pass',
+        'def f(a, /, b, *, c: int = 2): return a',
+        'def f(*args, **kwargs): pass',
+        'def f(**kwargs: dict[str, int]) -> int: return 1',
+        'f = lambda x, y = 1, *a, **k: x if y else a',
+        'x = a if b else c if d else e',
+        'x = -a + +b - ~c',
+        'x = a + b * c not in d or not e and f < g',
+        'x = a[1]\\ny = a[1:2]\\nz = a[:2:3]\\nw = a[::]\\nv = a[1:]\\nu = a[1, 2]',
+        'x = [1, 2, 3]\\ny = []\\nz = [a for a in b if a if not a]\\nw = [a for a in b for c in a if c]',
+        'def f():\\n    for x in y:\\n        if x:\\n            continue\\n        elif y:\\n            break\\n        else:\\n            pass\\n    return 1, 2',
+        'for a, b in c: pass',
+        'if a: pass\\nelif b: pass\\nelif c: pass\\nelse: pass',
+        'def f(x: int, *, y: list[int] = [1], **kw: int) -> None:\\n    return',
+    ]
+    path = os.path.join(HERE, '.work', 'span_in.star')
+    open(path, 'w').write('\n'.join(srcs) + '\n')
+    p = subprocess.run([BIN, 'spanfile', path], capture_output=True, text=True, timeout=300)
+    for src, o in zip(srcs, p.stdout.splitlines()):
+        if o != 'OK':
+            return {'witness': {'source': src.replace('\\n', '\n'), 'real_library': o, 'expected': 'every node span inside its parent span'}, 'grid_points': len(srcs)}
+    return {'witness': None, 'grid_points': len(srcs)}
+
+
 def range_grid_search(log):
     """range(a, b, s): len, first/last element, indexing at the ends, membership, equality, slicing, iteration vs Python."""
     M = 2**31
@@ -433,6 +486,10 @@ def find_witness(prop, v, repo, log):
             return {'witness': None, 'search': 'SmallMap scenarios (sizes 0..40 across the index threshold; remove by key/index at every position, clear+reuse, pop, reverse, retain, sort) vs a list model: ' + o}
         return {'witness': {'real_library': o + (' ' + loc[0] if loc else ''), 'oracle': 'list-of-pairs model'},
                 'search': 'SmallMap scenarios (sizes 0..40 across the index threshold) vs a list model'}
+    if 'C05.span.' in oid or (prop == 'C05' and 'ParserRd' in fn):
+        r = span_grid_search(log)
+        r['search'] = 'sources covering every node builder of unit spans (parameters with types and defaults, lambda, conditional, unary, def / for / if, index / slice, return, lists and comprehensions): span containment checked on the parsed tree of the real library'
+        return r
     if prop == 'C06':
         r = parser_grid_search(log)
         r['search'] = 'a OP1 b OP2 c for all 21x21 operator pairs as statement, call argument and under prefix not: acceptance and grouping vs CPython ast'
@@ -459,6 +516,10 @@ def find_witness(prop, v, repo, log):
             r = grid_search_int(op, log)
             r['search'] = 'boundary grid for `%s` on the real library vs Python integers' % op
             return r
+    if 'C01.compr.' in oid or 'compile_ifs' in fn:
+        r = compr_grid_search(log)
+        r['search'] = 'comprehensions with several guards per for clause (first and nested clauses, list and dict) on the real library vs Python'
+        return r
     if '.range.' in oid or 'Range' in fn or fn.endswith('::range'):
         r = range_grid_search(log)
         r['search'] = 'range(a, b, s) for a, b in 10 boundary values x 10 steps: len, bool, r[i] at the ends, membership, equality, small slices and list() on the real library vs Python range'
